@@ -115,7 +115,7 @@ def contexts(ctx, rnd):
         out.append((pre, 2, suf))
         out.append((pre, 1, suf))
     pool = gen.segment_pool('quick', rnd, ext=True)
-    k = 40 if ctx.quick else 400
+    k = 40 if ctx.quick else 160
     for nodes in rnd.sample(pool, k):
         t = gen.render_nodes(nodes)
         if len(t) < 2:
@@ -200,18 +200,20 @@ def run(ctx):
         if not ctx.quick or k in (0, 3, 5, 7, 9, 12):
             items.append(('free', f, 2, 45 if ctx.quick else 150))
     if not ctx.quick:
-        for f in fs[:6]:
-            items.append(('free', f, 3, 900))
+        for f in (fs[0], fs[3], fs[5], fs[12]):
+            items.append(('free', f, 3, 600))
     ctxs = contexts(ctx, rnd)
     n_skel = 10 + 40            # the hand-listed bracket / group / separator / backslash skeletons come first in contexts()
     for k, c in enumerate(ctxs):
         if ctx.quick:
             # rotating flag sets, and for the skeletons always the two sets with implicit prefixes (MATCHBASE; pathlib's right-anchored form)
             fsel = [fs[k % len(fs)], fs[(k + 3) % len(fs)]] + ([fs[5], fs[12]] if k < n_skel and c[1] == 1 else [])
+        elif k < n_skel:
+            fsel = fs                                                    # thorough: every skeleton under every flag set
         else:
-            fsel = fs
+            fsel = [fs[(k + j) % len(fs)] for j in range(4)]            # thorough: random contexts under 4 rotating flag sets
         for f in dict.fromkeys(fsel):
-            items.append(('window', f, c, 25 if ctx.quick else 200))
+            items.append(('window', f, c, 25 if ctx.quick else 90))
     results = common.pmap(job, items, ctx.workers, chunk=1)
     paths = 0
     lost = 0
@@ -273,7 +275,7 @@ def run(ctx):
                 'representative pattern) + concrete seed calls; non-trivial = explorations with more than one path',
         'samples': samples, 'explorations': len(items), 'paths': paths, 'solver_calls': solver_calls, 'explorations_not_exhausted_within_cap': incomplete,
         'lost_constraint_events': lost, 'seed_layer_calls': n_seed,
-        'bounds': {'free': 'all strings of length <= 2 (quick) / <= 3 for 6 flag sets (thorough) over 0..0x10FFFF', 'window': '1-2 (3) symbolic characters in %d contexts' % len(ctxs),
+        'bounds': {'free': 'all strings of length <= 2 (quick) / <= 3 for 4 flag sets (thorough, 600 s cap each; explorations not exhausted within the cap are counted and reported) over 0..0x10FFFF', 'window': '1-2 (3) symbolic characters in %d contexts' % len(ctxs),
                    'flag_sets': len(fs), 'mode': 'str patterns, Unix mode, BRACE off for the concolic part'},
         'functions_encoded': ['_wcparse.WcParse (root/_sequence/_references/_handle_star/_handle_dot/parse_extend/clean_up_inverse)', '_wcparse.WcSplit', 'glob._GlobSplit'],
         'exhaustive': not ctx.inconclusive and incomplete == 0,
